@@ -76,7 +76,8 @@ impl Exchange {
     // Step2: UserB Call
     //
     pub fn exchange_2(&mut self, ra_point: &Point) -> Sm2Result<(Point, [u8; 32])> {
-        if !ra_point.is_valid() {
+        // the point at infinity has no coordinates that could satisfy the curve equation
+        if ra_point.is_zero() || !ra_point.is_valid() {
             return Err(Sm2Error::CheckPointErr);
         }
         // 2^127
@@ -150,7 +151,7 @@ impl Exchange {
     // Step4: UserA Call
     //
     pub fn exchange_3(&mut self, rb_point: &Point, sb: [u8; 32]) -> Sm2Result<[u8; 32]> {
-        if !rb_point.is_valid() {
+        if rb_point.is_zero() || !rb_point.is_valid() {
             return Err(Sm2Error::CheckPointErr);
         }
         // 2^127
